@@ -68,7 +68,7 @@ def py_to_ms_dt(v):
     return R.pydt_to_us(v)
 
 
-def check_read(t, DT, TM, kind, text, notation, m, spelled, ref_text=None):
+def check_read(t, DT, TM, kind, text, notation, m, spelled, ref_text=None, prior=()):
     """kind: 'datetime'|'time'; ref_text: the text the reference reads instead (same instant, notation the reference knows)"""
     t.count("evaluations")
     conv = DT if kind == "datetime" else TM
@@ -80,7 +80,7 @@ def check_read(t, DT, TM, kind, text, notation, m, spelled, ref_text=None):
     try:
         v = conv.convert(text)
     except Exception as e:
-        t.fail(f"C09|read|{kind}|{notation}|{cls}|rejected", {"op": "read", "kind": kind, "text": text}, f"{type(e).__name__}: {e}")
+        t.fail(f"C09|read|{kind}|{notation}|{cls}|rejected", dict({"op": "read", "kind": kind, "text": text}, **({"ref_text": ref_text, "prior": list(prior)} if ref_text else {})), f"{type(e).__name__}: {e}")
         return
     try:
         if kind == "datetime":
@@ -94,9 +94,9 @@ def check_read(t, DT, TM, kind, text, notation, m, spelled, ref_text=None):
     except Exception as e:
         ok, gotms = False, None
     if not ok:
-        t.fail(f"C09|read|{kind}|{notation}|{cls}|not-aware-utc", {"op": "read", "kind": kind, "text": text}, repr(v))
+        t.fail(f"C09|read|{kind}|{notation}|{cls}|not-aware-utc", dict({"op": "read", "kind": kind, "text": text}, **({"ref_text": ref_text, "prior": list(prior)} if ref_text else {})), repr(v))
     elif gotms != exp:
-        t.fail(f"C09|read|{kind}|{notation}|{cls}|wrong-instant", {"op": "read", "kind": kind, "text": text}, f"{text!r} -> {v!r} = {gotms} ms, expected {exp} ms")
+        t.fail(f"C09|read|{kind}|{notation}|{cls}|wrong-instant", dict({"op": "read", "kind": kind, "text": text}, **({"ref_text": ref_text, "prior": list(prior)} if ref_text else {})), f"{text!r} -> {v!r} = {gotms} ms, expected {exp} ms")
     else:
         t.outcome("read-ok")
 
@@ -156,10 +156,12 @@ def read_work(chunk):
             _, order = job
             for kind, pre in (("datetime", "20240310"), ("time", "")):
                 dt, tm = lib_types()
+                prior = []
                 for name in order:
                     h = IB_HOURS[name]
-                    check_read(t, dt, tm, kind, f"{pre}013000.250[-:{name}]", "zone-name-only", h * 60, f"{h}:", ref_text=f"{pre}013000.250[{h}:{name}]")
-                    check_read(t, dt, tm, kind, f"{pre}013000[-:{name}]", "zone-name-only-without-ms", h * 60, f"{h}:", ref_text=f"{pre}013000[{h}:{name}]")
+                    for txt, ref, nota in ((f"{pre}013000.250[-:{name}]", f"{pre}013000.250[{h}:{name}]", "zone-name-only"), (f"{pre}013000[-:{name}]", f"{pre}013000[{h}:{name}]", "zone-name-only-without-ms")):
+                        check_read(t, dt, tm, kind, txt, nota, h * 60, f"{h}:", ref_text=ref, prior=prior)
+                        prior.append(txt)
         elif tag == "names":
             # all names x all spellings of a few offsets
             _, m = job
@@ -558,7 +560,12 @@ def replay(ctx, case):
     t = Tally()
     kind = case["kind"]
     if case["op"] == "read":
-        check_read(t, DT, TM, kind, case["text"], "replay", 0, "x")
+        for txt in case.get("prior", ()):
+            try:
+                (DT if kind == "datetime" else TM).convert(txt)  # the texts this converter had read before
+            except Exception:
+                pass
+        check_read(t, DT, TM, kind, case["text"], "replay", 0, "x", ref_text=case.get("ref_text"))
     elif case["op"] == "reject":
         conv = DT if kind == "datetime" else TM
         try:
